@@ -241,6 +241,7 @@ def run(ctx):
     B = ctx.n(60, 160)          # binary grid [-B, B]^2
     U = ctx.n(4000, 40000)      # unary range [-50, U]
     NR = ctx.n(30, 300)         # random large cases per function
+    NH = ctx.n(14, 120)         # ... for the functions whose model is expensive (modular exponentiation)
     ctx.rule = ('case = (function, arguments, randint tape); exhaustive grids [-%d,%d]^2 (binary) and [-50,%d] (unary), '
                 'plus structured/random 64..512-bit arguments; non-trivial = does not take the first early-return of the '
                 'function (e.g. gcdext with b != 0, is_prime reaching Miller-Rabin or a small-prime hit, invert with |m| > 1)'
@@ -257,6 +258,30 @@ def run(ctx):
         if vcount[key] <= 5:
             ctx.violation(sig, detail)
     exprs, expect = [], []      # Coq expression -> expected parsed value (list-shaped)
+
+    def add_range(fmt, lo, vals, pieces):
+        """fmt with @ := 'zrange ..' evaluated over [lo, lo+len(vals)) in `pieces` separate expressions."""
+        n = len(vals)
+        step = max(1, -(-n // pieces))
+        for i in range(0, n, step):
+            exprs.append(fmt.replace('@', '(zrange %s %s)' % (zlit(lo + i), natlit(min(step, n - i)))))
+            expect.append(vals[i:i + step])
+
+    def add_list(fmt, items, vals, per):
+        for i in range(0, len(items), per):
+            exprs.append(fmt.replace('@', '[%s]' % '; '.join(items[i:i + per])))
+            expect.append(vals[i:i + per])
+
+    def add_grid(f, lo, rows, lo2, n2, pieces):
+        """`grid f` over rows [lo, lo+len(rows)) x [lo2, lo2+n2), split by rows into `pieces` expressions."""
+        n = len(rows)
+        step = max(1, -(-n // pieces))
+        for i in range(0, n, step):
+            exprs.append('grid %s %s %s %s %s' % (f, zlit(lo + i), natlit(min(step, n - i)), zlit(lo2), natlit(n2)))
+            expect.append(rows[i:i + step])
+
+    def pairs_lit(ps):
+        return ['(%s, %s)' % (zlit(a), zlit(b)) for a, b in ps]
 
     def big(bits=None):
         bits = bits or rng.choice([64, 65, 96, 127, 128, 200, 256, 257, 384, 512])
@@ -289,8 +314,7 @@ def run(ctx):
                 viol('gcdext-bezout a=%d b=%d' % (a, b), {'f': 'gcdext', 'a': a, 'b': b, 'got': r})
             ctx.case(['gcdext', a, b], nontrivial=b != 0, kind='gcdext grid')
         rows.append(row)
-    exprs.append('grid gcdext %s %s %s %s' % (zlit(-B), natlit(2 * B + 1), zlit(-B), natlit(2 * B + 1)))
-    expect.append(rows)
+    add_grid('gcdext', -B, rows, -B, 2 * B + 1, ctx.n(3, 12))
     pairs = []
     for _ in range(NR):
         a, b = sgn() * big(), sgn() * big()
@@ -313,8 +337,7 @@ def run(ctx):
         elif not gcdext_normal(a, b, *r[1]):
             viol('gcdext-normalisation big', {'f': 'gcdext', 'a': a, 'b': b, 'got': r})
         ctx.case(['gcdext', a, b], nontrivial=b != 0, kind='gcdext big')
-    exprs.append('map (fun p => gcdext (fst p) (snd p)) [%s]' % '; '.join('(%s, %s)' % (zlit(a), zlit(b)) for a, b in pairs))
-    expect.append(rs)
+    add_list('map (fun p => gcdext (fst p) (snd p)) @', pairs_lit(pairs), rs, 25)
 
     # ---------------- invert
     rows = []
@@ -333,8 +356,7 @@ def run(ctx):
                 viol('invert x=%d m=%d' % (x, m), {'f': 'invert', 'x': x, 'm': m, 'got': r, 'want_error': want_err})
             ctx.case(['invert', x, m], nontrivial=abs(m) > 1, kind='invert grid')
         rows.append(row)
-    exprs.append('grid invert %s %s %s %s' % (zlit(-B), natlit(2 * B + 1), zlit(-B), natlit(2 * B + 1)))
-    expect.append(rows)
+    add_grid('invert', -B, rows, -B, 2 * B + 1, ctx.n(3, 12))
     pairs = []
     for _ in range(NR):
         m = sgn() * big()
@@ -354,8 +376,7 @@ def run(ctx):
         if not good:
             viol('invert big', {'f': 'invert', 'x': x, 'm': m, 'got': r})
         ctx.case(['invert', x, m], nontrivial=abs(m) > 1, kind='invert big')
-    exprs.append('map (fun p => invert (fst p) (snd p)) [%s]' % '; '.join('(%s, %s)' % (zlit(a), zlit(b)) for a, b in pairs))
-    expect.append(rs)
+    add_list('map (fun p => invert (fst p) (snd p)) @', pairs_lit(pairs), rs, 25)
 
     # ---------------- powmod
     PB = ctx.n(12, 25)
@@ -375,14 +396,15 @@ def run(ctx):
         if not good:
             viol('powmod x=%d y=%d m=%d' % (x, y, m), {'f': 'powmod', 'x': x, 'y': y, 'm': m, 'got': r})
         ctx.case(['powmod', x, y, m], nontrivial=m != 0 and y != 0, kind='powmod grid')
-    exprs.append('map (fun x => map (fun y => map (fun m => powmod x y m) (zrange %s %s)) (zrange (-4) 13)) (zrange %s %s)'
-                 % (zlit(-PB), natlit(2 * PB + 1), zlit(-PB), natlit(2 * PB + 1)))
-    expect.append([[[rs[(i * 13 + j) * (2 * PB + 1) + k] for k in range(2 * PB + 1)] for j in range(13)]
-                   for i in range(2 * PB + 1)])
+    full = [[[rs[(i * 13 + j) * (2 * PB + 1) + k] for k in range(2 * PB + 1)] for j in range(13)] for i in range(2 * PB + 1)]
+    add_range('map (fun x => map (fun y => map (fun m => powmod x y m) (zrange %s %s)) (zrange (-4) 13)) @'
+              % (zlit(-PB), natlit(2 * PB + 1)), -PB, full, ctx.n(2, 6))
     trip = []
-    for _ in range(NR):
-        m = sgn() * big()
-        trip.append((sgn() * big(), rng.choice([big(), big(16), -1, -rng.randrange(2, 50)]), m))
+    for _ in range(NH):
+        # (cost of the model is cubic in the bit size: 512-bit exponents only now and then)
+        eb = rng.choice(ctx.n([64, 96, 128, 200], [64, 96, 128, 200, 256]) + ([512] if rng.random() < 0.1 else []))
+        m = sgn() * big(rng.choice([64, 128, 256, eb]))
+        trip.append((sgn() * big(), rng.choice([big(eb), big(16), -1, -rng.randrange(2, 50)]), m))
     rs = []
     for x, y, m in trip:
         r = call(gmpy.powmod, x, y, m)
@@ -402,9 +424,8 @@ def run(ctx):
         if not good:
             viol('powmod big', {'f': 'powmod', 'x': x, 'y': y, 'm': m, 'got': r})
         ctx.case(['powmod', x, y, m], nontrivial=True, kind='powmod big')
-    exprs.append('map (fun p => powmod (fst (fst p)) (snd (fst p)) (snd p)) [%s]'
-                 % '; '.join('(%s, %s, %s)' % (zlit(a), zlit(b), zlit(c)) for a, b, c in trip))
-    expect.append(rs)
+    add_list('map (fun p => powmod (fst (fst p)) (snd (fst p)) (snd p)) @',
+             ['(%s, %s, %s)' % (zlit(a), zlit(b), zlit(c)) for a, b, c in trip], rs, 3)
 
     # ---------------- jacobi / legendre / kronecker
     rowsj, rowsk = [], []
@@ -429,10 +450,8 @@ def run(ctx):
             ctx.case(['kronecker', x, y], nontrivial=abs(y) > 1, kind='kronecker grid')
         rowsj.append(rj)
         rowsk.append(rk)
-    exprs.append('grid jacobi %s %s %s %s' % (zlit(-B), natlit(2 * B + 1), zlit(-B), natlit(2 * B + 1)))
-    expect.append(rowsj)
-    exprs.append('grid kronecker %s %s %s %s' % (zlit(-B), natlit(2 * B + 1), zlit(-B), natlit(2 * B + 1)))
-    expect.append(rowsk)
+    add_grid('jacobi', -B, rowsj, -B, 2 * B + 1, ctx.n(3, 12))
+    add_grid('kronecker', -B, rowsk, -B, 2 * B + 1, ctx.n(3, 12))
     pairs = []
     smallps = [p for p in range(3, 60) if o_is_prime_small(p)]
     for _ in range(NR):
@@ -466,11 +485,9 @@ def run(ctx):
         if (rj != ('Ok', want)) if (y > 0 and y % 2) else (rj != 'EValue'):
             viol('jacobi big', {'f': 'jacobi', 'x': x, 'y': y, 'factors': fs, 'got': rj, 'want': want})
         ctx.case(['kronecker', x, y], nontrivial=True, kind='kronecker big')
-    lit = '; '.join('(%s, %s)' % (zlit(a), zlit(b)) for a, b, _ in pairs)
-    exprs.append('map (fun p => jacobi (fst p) (snd p)) [%s]' % lit)
-    expect.append(rsj)
-    exprs.append('map (fun p => kronecker (fst p) (snd p)) [%s]' % lit)
-    expect.append(rsk)
+    lit = ['(%s, %s)' % (zlit(a), zlit(b)) for a, b, _ in pairs]
+    add_list('map (fun p => jacobi (fst p) (snd p)) @', lit, rsj, 25)
+    add_list('map (fun p => kronecker (fst p) (snd p)) @', lit, rsk, 25)
 
     # ---------------- isqrt / is_square / iroot
     LO = -50
@@ -491,10 +508,8 @@ def run(ctx):
         if not goodb:
             viol('is_square x=%d' % x, {'f': 'is_square', 'x': x, 'got': b})
         ctx.case(['isqrt', x], nontrivial=x > 0, kind='isqrt/is_square range')
-    exprs.append('map isqrt (zrange %s %s)' % (zlit(LO), natlit(U + 1 - LO)))
-    expect.append(r1)
-    exprs.append('map is_square (zrange %s %s)' % (zlit(LO), natlit(U + 1 - LO)))
-    expect.append(r2)
+    add_range('map isqrt @', LO, r1, ctx.n(2, 8))
+    add_range('map is_square @', LO, r2, ctx.n(2, 8))
     xs = []
     for _ in range(NR):
         r = big(rng.choice([32, 64, 100, 256]))
@@ -510,10 +525,8 @@ def run(ctx):
         if b != ('Ok', s * s == x):
             viol('is_square big', {'f': 'is_square', 'x': x, 'got': b})
         ctx.case(['isqrt', x], nontrivial=True, kind='isqrt/is_square big')
-    exprs.append('map isqrt [%s]' % '; '.join(zlit(x) for x in xs))
-    expect.append(r1)
-    exprs.append('map is_square [%s]' % '; '.join(zlit(x) for x in xs))
-    expect.append(r2)
+    add_list('map isqrt @', [zlit(x) for x in xs], r1, 25)
+    add_list('map is_square @', [zlit(x) for x in xs], r2, 25)
     NLO, NHI = -3, 9
     rows = []
     for x in range(LO, U + 1):
@@ -536,10 +549,9 @@ def run(ctx):
                     viol('iroot-nonpositive-n x=%d n=%d' % (x, n), {'f': 'iroot', 'x': x, 'n': n, 'got': r})
             ctx.case(['iroot', x, n], nontrivial=x > 1 and n >= 1, kind='iroot grid')
         rows.append(row)
-    exprs.append('grid iroot %s %s %s %s' % (zlit(LO), natlit(U + 1 - LO), zlit(NLO), natlit(NHI - NLO + 1)))
-    expect.append(rows)
+    add_grid('iroot', LO, rows, NLO, NHI - NLO + 1, ctx.n(6, 60))
     pairs = []
-    for _ in range(NR):
+    for _ in range(NH):
         n = rng.choice([1, 2, 3, 4, 5, 7, 10, 64, 1000])
         r = big(rng.choice([8, 16, 40, 64] if n <= 64 else [3, 8]))
         pairs.append((rng.choice([r ** n, r ** n + 1, r ** n - 1, (r + 1) ** n - 1, big()]), n))
@@ -551,8 +563,7 @@ def run(ctx):
         if not good:
             viol('iroot big', {'f': 'iroot', 'x': x, 'n': n, 'got': r})
         ctx.case(['iroot', x, n], nontrivial=True, kind='iroot big')
-    exprs.append('map (fun p => iroot (fst p) (snd p)) [%s]' % '; '.join('(%s, %s)' % (zlit(a), zlit(b)) for a, b in pairs))
-    expect.append(rs)
+    add_list('map (fun p => iroot (fst p) (snd p)) @', pairs_lit(pairs), rs, 6)
 
     # ---------------- is_prime / next_prime / prev_prime (exhaustive, generated tapes)
     sieve = [o_is_prime_small(x) for x in range(0, U + 200)]
@@ -560,19 +571,6 @@ def run(ctx):
 
     def tapefn(x, M):
         return lambda i: tape_val(seed, x, i, M)
-
-    def add_range(fmt, lo, vals, pieces):
-        """fmt with @ := 'zrange ..' evaluated over [lo, lo+len(vals)) in `pieces` separate expressions."""
-        n = len(vals)
-        step = -(-n // pieces)
-        for i in range(0, n, step):
-            exprs.append(fmt.replace('@', '(zrange %s %s)' % (zlit(lo + i), natlit(min(step, n - i)))))
-            expect.append(vals[i:i + step])
-
-    def add_list(fmt, items, vals, per):
-        for i in range(0, len(items), per):
-            exprs.append(fmt.replace('@', '[%s]' % '; '.join(items[i:i + per])))
-            expect.append(vals[i:i + per])
 
     rip, rnp, rpp = [], [], []
     for x in range(LO, U + 1):
@@ -596,15 +594,16 @@ def run(ctx):
             viol('prev_prime x=%d' % x, {'f': 'prev_prime', 'x': x, 'got': r, 'want': want, 'seed': seed})
         ctx.case(['next_prime', x, seed], nontrivial=x > 1, kind='next/prev_prime range')
     add_range('map (run_is_prime %s %s) @' % (zlit(MS), zlit(seed)), LO, rip, ctx.n(3, 12))
-    add_range('map (run_next_prime 200 %s %s) @' % (zlit(MS), zlit(seed)), LO, rnp, ctx.n(6, 40))
-    add_range('map (run_prev_prime 200 %s %s) @' % (zlit(MS), zlit(seed)), LO, rpp, ctx.n(6, 40))
+    UM = ctx.n(1500, U)      # the model is compared on [LO, UM]; implementation + oracle cover all of [LO, U]
+    add_range('map (run_next_prime 200 %s %s) @' % (zlit(MS), zlit(seed)), LO, rnp[:UM + 1 - LO], ctx.n(6, 40))
+    add_range('map (run_prev_prime 200 %s %s) @' % (zlit(MS), zlit(seed)), LO, rpp[:UM + 1 - LO], ctx.n(6, 40))
     # structured / large: Carmichael numbers, strong pseudoprimes, Mersenne primes, products of two primes, random
     special = [561, 1105, 1729, 2047, 2465, 2821, 6601, 8911, 3215031751, 3825123056546413051, 318665857834031151167461,
                2 ** 61 - 1, 2 ** 89 - 1, 2 ** 107 - 1, 2 ** 64 + 13, 2 ** 128 + 51,
                59 * 59, 59 * 61, 61 * 67, 3 * (2 ** 100 + 277), (2 ** 31 - 1) * (2 ** 61 - 1),
                1194649, 12327121, 4033, 4681, 5461, 15841, 29341, 52633, 65281, 74665, 90751]
     cases = list(special)
-    for _ in range(NR):
+    for _ in range(NH):
         b = rng.choice(ctx.n([64, 80, 96, 128], [64, 80, 128, 160, 256]))
         k = rng.randrange(4)
         if k == 0:
@@ -640,7 +639,7 @@ def run(ctx):
     add_list('map (fun p => used (is_prime_n (snd p) (of_list []) (fst p))) @',
              ['(%s, %s)' % (zlit(x), natlit(n)) for x, n in few], rs, 13)
     # next/prev on large arguments
-    big_np = [big(rng.choice(ctx.n([64, 65, 80, 100], [64, 100, 128, 200]))) for _ in range(ctx.n(10, 40))]
+    big_np = [big(rng.choice(ctx.n([64, 65, 80, 100], [64, 100, 128, 200]))) for _ in range(ctx.n(6, 24))]
     rn, rp = [], []
     for x in big_np:
         gmpy.random = T = TapeRandom(fn=tapefn(x, MB))
@@ -664,7 +663,7 @@ def run(ctx):
     add_list('map (run_prev_prime 3000 %s %s) @' % (zlit(MB), zlit(seed)), [zlit(x) for x in big_np], rp, 2)
 
     # ---------------- factor_prime_power
-    FU = ctx.n(1062, 6000)
+    FU = ctx.n(1045, 6000)
     rs = []
     for x in range(-5, FU + 1):
         gmpy.random = T = TapeRandom(fn=tapefn(x, MS))
@@ -674,10 +673,14 @@ def run(ctx):
         if r != (('Ok', pp) if pp else 'EValue'):
             viol('factor_prime_power x=%d' % x, {'f': 'factor_prime_power', 'x': x, 'got': r, 'want': pp, 'seed': seed})
         ctx.case(['factor_prime_power', x, seed], nontrivial=x > 1, kind='factor_prime_power range')
-    add_range('map (run_fpp 100 %s %s) @' % (zlit(MS), zlit(seed)), -5, rs, ctx.n(12, 60))
+    # model compared on [-5, FM] and on [1015, FU] (around 2^10, where the small-prime phase ends); oracle on all
+    FM = ctx.n(420, FU)
+    add_range('map (run_fpp 100 %s %s) @' % (zlit(MS), zlit(seed)), -5, rs[:FM + 6], ctx.n(8, 60))
+    if FM < FU:
+        add_range('map (run_fpp 100 %s %s) @' % (zlit(MS), zlit(seed)), 1015, rs[1015 + 5:], 6)
     cases = []
-    maxbits = ctx.n(420, 1400)
-    for _ in range(ctx.n(16, 160)):
+    maxbits = ctx.n(420, 900)
+    for _ in range(ctx.n(10, 80)):
         p = rng.choice([gen_prime(rng.choice([11, 12, 16, 20, 33, 64, 100])), rng.choice([1021, 1031, 1033, 2, 3, 1019])])
         d = rng.choice([1, 2, 3, 4, 5, 6, 7, 8, 9, 12, 15, 16, 25, 27, 30])
         if p.bit_length() * d > maxbits:
@@ -723,8 +726,7 @@ def run(ctx):
                 viol('ratrec x=%d y=%d' % (x, y), {'f': 'ratrec', 'x': x, 'y': y, 'got': r})
             ctx.case(['ratrec', x, y], nontrivial=y > 2, kind='ratrec default grid')
         rows.append(row)
-    exprs.append('grid (fun y x => ratrec x y None None) %s %s %s %s' % (zlit(-3), natlit(RB + 4), zlit(-RB), natlit(2 * RB + 1)))
-    expect.append(rows)
+    add_grid('(fun y x => ratrec x y None None)', -3, rows, -RB, 2 * RB + 1, ctx.n(2, 6))
     quads = []
     for _ in range(ctx.n(4000, 40000)):
         y = rng.randrange(-2, 200)
@@ -788,7 +790,7 @@ def run(ctx):
     # ---------------- model vs implementation
     ctx.log('%d implementation cases; evaluating %d model expressions in Coq' % (ctx.evaluations, len(exprs)))
     if ok:
-        res = ctx.coq_eval(['MPyC.Gmpy'], exprs, chunk=1, jobs=14, timeout=170)
+        res = eval_retry(ctx, ['MPyC.Gmpy'], exprs, chunk=1, jobs=14)
         mism, ncmp = 0, 0
         for e, r, w in zip(exprs, res, expect):
             if isinstance(r, tuple) and r and r[0] == 'ERROR':
@@ -831,3 +833,18 @@ def diff(r, w, path=()):
                 return d
         return None
     return None if norm(r) == norm(w) else (list(path), r, w)
+
+
+def eval_retry(ctx, requires, exprs, chunk=1, jobs=14, timeout=2400):
+    """ctx.coq_eval with a generous wall-clock limit (a loaded machine must never turn into a verdict);
+    expressions whose chunk failed are evaluated once more, one per file and sequentially-ish, before
+    they count as broken."""
+    res = ctx.coq_eval(requires, exprs, chunk=chunk, jobs=jobs, timeout=timeout)
+    bad = [i for i, r in enumerate(res) if isinstance(r, tuple) and r and r[0] == 'ERROR']
+    if bad:
+        ctx.log('%d expressions failed to evaluate; retrying them alone' % len(bad))
+        again = ctx.coq_eval(requires, [exprs[i] for i in bad], chunk=1, jobs=2, timeout=2 * timeout)
+        for i, r in zip(bad, again):
+            res[i] = r
+        ctx.notes.append('%d model expressions needed a second evaluation (first one failed or timed out)' % len(bad))
+    return res
